@@ -979,6 +979,15 @@ impl LineBuf {
 			.filter(|ch| *ch == '\n')
 			.count() + 1
 	}
+	/// Zero-based number of the last line. A final newline terminates the last line, it does not start another one.
+	pub fn last_line_number(&self) -> usize {
+		let lines = self.total_lines();
+		if lines > 1 && self.buffer.ends_with('\n') {
+			lines - 2
+		} else {
+			lines - 1
+		}
+	}
 	pub fn cursor_line_number(&mut self) -> usize {
 		self.slice_to_cursor()
 			.map(|slice| {
@@ -2295,7 +2304,7 @@ impl LineBuf {
 			LineAddr::Number(num) => Some(num.saturating_sub(1)), // Line ranges are one indexed for input, zero indexed internally
 																														// Both zero and one refer to the first line
 			LineAddr::Current => Some(self.cursor_line_number()),
-			LineAddr::Last => Some(self.total_lines()),
+			LineAddr::Last => Some(self.last_line_number()),
 			LineAddr::Offset(offset) => {
 				let current = self.cursor_line_number();
 				Some(current.saturating_add_signed(offset))
@@ -2435,10 +2444,10 @@ impl LineBuf {
 						let end_ln = self.eval_line_addr(e.clone()).unwrap();
 						(start_ln,end_ln)
 					}
-					_ => (0,self.total_lines())
+					_ => (0,self.last_line_number())
 				};
 				let mut lines = vec![];
-				let line_range = start_line..end_line;
+				let line_range = start_line..=end_line;
 				let regex = match pattern {
 					Val::Regex(regex) => regex.clone(),
 					_ => match Regex::new(&pattern.to_string()) {
@@ -3723,7 +3732,7 @@ impl LineBuf {
 				let (start_line,end_line) = match motion {
 					MotionKind::Line(n) => (n,n),
 					MotionKind::LineRange(s,e) => (s,e),
-					_ => (0,self.total_lines())
+					_ => (0,self.last_line_number())
 				};
 				let Some((start,_)) = self.line_bounds(start_line) else { return Ok(()) };
 				let Some((_,end)) = self.line_bounds(end_line) else { return Ok(()) };
@@ -3775,7 +3784,7 @@ impl LineBuf {
 				let (start_line,end_line) = match motion {
 					MotionKind::Line(n) => (n,n),
 					MotionKind::LineRange(s,e) => (s,e),
-					_ => (0,self.total_lines()),
+					_ => (0,self.last_line_number()),
 				};
 				// Have to temporarily move sub out of last_substitution
 				// Because of mutable borrowing stuff
@@ -3817,7 +3826,7 @@ impl LineBuf {
 				let (start_line,end_line) = match motion {
 					MotionKind::Line(n) => (n,n),
 					MotionKind::LineRange(s,e) => (s,e),
-					_ => (0,self.total_lines()),
+					_ => (0,self.last_line_number()),
 				};
 				match Regex::new(&old) {
 					Ok(regex) => {
